@@ -222,7 +222,7 @@ var chinese = ev.Register(&ev.P[dayCase]{
 	Rule: "every lunar/Taoist/Buddhist date reachable from the civil days of the sweep years (all years in thorough) plus generated days (leap months, days 10/20/30, months 11/12, years < 1000); oracle: Lunar.String / Tao.ToString / Foto.ToString decode — year digit-by-digit through the (checked injective) NUMBER[0..9], then [constant leap marker] + exactly one MONTH name + 月 + exactly one DAY name — to the object's own year, month (sign = leap) and day; GetYearInChinese/GetMonthInChinese/GetDayInChinese compose to String; LunarMonth.String and LunarYear.String parse back to year, month, leap flag and length; distinct dates never print alike (run-wide set per rendering); wording is never hard-coded, so a legitimate renaming cannot raise an alarm; non-trivial: year < 1000, leap month, day 10/20/30, month 11/12",
 	Check: func(c dayCase) error {
 		y, mo, d := ref.FromJDN(c.J)
-		l := calendar.NewSolarFromYmd(y, mo, d).GetLunar()
+		l := calendar.NewSolar(y, mo, d, (c.J*5)%24, (c.J*7)%60, (c.J*11)%60).GetLunar()
 		ly, lm, ld := l.GetYear(), l.GetMonth(), l.GetDay()
 		key := fmt.Sprintf("%d/%d/%d", ly, lm, ld)
 		civil := fmt.Sprintf("civil %04d-%02d-%02d", y, mo, d)
